@@ -76,9 +76,10 @@ type Hot struct {
 }
 
 type Case struct {
-	Hot    *Hot     `json:"hot,omitempty"`
-	GC     bool     `json:"gc"`     // collect garbage after every discard (address reuse by later TempVMs)
-	Shared []string `json:"shared"` // class names N for which the base defines c12new_N() and class c12child_N extends N
+	Hot      *Hot     `json:"hot,omitempty"`
+	GC       bool     `json:"gc"`       // collect garbage after every discard (address reuse by later TempVMs)
+	SharedFn []string `json:"sharedfn"` // function names N for which the base defines c12call_N() { return N(); }
+	Shared   []string `json:"shared"`   // class names N for which the base defines c12new_N() and class c12child_N extends N
 	// Callbacks: class names that NO class-path file provides; for name k an spl autoload callback is registered
 	// (parser.AddAutoLoad, process-wide, reset by NewVM) that defines class Callbacks[k] (definition id 2000+k) on the VM
 	// of the context it is called with, and declines every other name (composer classmap / legacy autoloader)
@@ -271,7 +272,8 @@ func declSrc(kind, name string, file int) string {
 	case "i":
 		return ns + "interface " + name + " {}"
 	default:
-		return ns + "function " + name + "() { return 1; }"
+		// the return value tells WHICH definition of the function was called
+		return ns + fmt.Sprintf("function %s() { return %d; }", name, file)
 	}
 }
 
@@ -502,6 +504,38 @@ func (w *world) doOp(o Op) (st Step) {
 		_, ctl := prog.GetValue(ctx)
 		if ctl == nil && w.thrown == nil && sb.String() == "1" {
 			st.D = 1
+		}
+		return
+	case "callcall":
+		// script level, run on VM v: the base function c12call_N(), whose body calls N() -- a name no VM defined when the
+		// body was parsed (late-bound call); D = the marker the called N returned (-1: failed)
+		src := "echo c12call_" + sharedName(o.Name) + "();"
+		p := w.parserFor(o.VM)
+		var sb strings.Builder
+		old := data.WriteOutput
+		data.WriteOutput = func(x string) { sb.WriteString(x) }
+		defer func() { data.WriteOutput = old }()
+		st.R = 5
+		st.D = -1
+		prog, acl := p.ParseString(src, "script.zy")
+		if acl != nil {
+			st.Msg = "parse: " + acl.AsString()
+			return
+		}
+		ctx := v.CreateContext(p.GetVariables())
+		w.thrown = nil
+		_, ctl := prog.GetValue(ctx)
+		if ctl == nil && w.thrown == nil {
+			st.Out = sb.String()
+			if n, err := strconv.Atoi(strings.TrimSpace(sb.String())); err == nil {
+				st.D = n
+			} else {
+				st.D = -8
+			}
+		} else if ctl != nil {
+			st.Msg = ctl.AsString()
+		} else {
+			st.Msg = w.thrown.AsString()
 		}
 		return
 	case "callfn", "newchild":
@@ -827,6 +861,21 @@ func runCase(c *Case) (obs Obs) {
 	w.base.AddNamespace("App", dir)
 	for k, n := range c.Callbacks {
 		parser.AddAutoLoad(data.NewFuncValue(&splCallback{k: k, name: n}))
+	}
+	for _, n := range c.SharedFn {
+		src := fmt.Sprintf("function c12call_%s() { return %s(); }\n", sharedName(n), n)
+		p := w.p.Clone()
+		prog, acl := p.ParseString(src, "sharedfn.zy")
+		if acl != nil {
+			return Obs{Err: "shared code: parse: " + acl.AsString()}
+		}
+		w.thrown = nil
+		if _, ctl := prog.GetValue(w.base.CreateContext(p.GetVariables())); ctl != nil {
+			return Obs{Err: "shared code: " + ctl.AsString()}
+		}
+		if w.thrown != nil {
+			return Obs{Err: "shared code: " + w.thrown.AsString()}
+		}
 	}
 	for _, n := range c.Shared {
 		src := fmt.Sprintf("function c12new_%s() { $o = new %s(); return $o->c12src; }\nclass c12child_%s extends %s { public function __construct() {} }\n", sharedName(n), n, sharedName(n), n)
